@@ -211,16 +211,16 @@ def case_hash(obj):
 
 
 def write_replay(prop_id, payload):
-    d = os.path.join(VERIF, "replays")
+    d = os.path.join(os.environ.get("VERIF_OUT", VERIF), "replays")
     os.makedirs(d, exist_ok=True)
     path = os.path.join(d, "%s-%s.json" % (prop_id, case_hash(payload)))
     with open(path, "w") as fh:
         json.dump(payload, fh, indent=1, sort_keys=True, default=str)
-    return os.path.relpath(path, VERIF)
+    return os.path.relpath(path, os.environ.get("VERIF_OUT", VERIF))
 
 
 def write_evidence(prop_id, ev):
-    d = os.path.join(VERIF, "evidence")
+    d = os.path.join(os.environ.get("VERIF_OUT", VERIF), "evidence")      # VERIF_OUT: runs against seeded changes
     os.makedirs(d, exist_ok=True)
     with open(os.path.join(d, "%s.json" % prop_id), "w") as fh:
         json.dump(ev, fh, indent=1, sort_keys=True, default=str)
